@@ -131,6 +131,12 @@ func (c *Collector) Flush() {
 	}
 	b, err := json.MarshalIndent(c, "", " ")
 	if err != nil {
+		// never lose the verdict because a sample does not serialise
+		c.Notes = append(c.Notes, "samples dropped: "+err.Error())
+		c.Samples = nil
+		b, err = json.MarshalIndent(c, "", " ")
+	}
+	if err != nil {
 		b = []byte(fmt.Sprintf(`{"error":%q}`, err.Error()))
 	}
 	_ = os.WriteFile(p, b, 0o644)
